@@ -126,7 +126,14 @@ def genData (pid : Nat) (wantAF : Bool) (maxPriv : Nat := 100) (big : Bool := fa
   let af ← (if wantAF then do let a ← genCallerAF maxPriv; pure (some a) else pure none)
   let hdrLen := 6 + calcPESOptionalHeaderLength (some oh)
   let afLen := match af with | some a => 1 + (afSize a).toNat | none => 0
-  let n ← (if big then randRange 65400 65700 else genPayloadLen hdrLen afLen)
+  -- big: around the 16-bit PES_packet_length limit (65535 - optional header .. 65536)
+  let optL := calcPESOptionalHeaderLength (some oh)
+  let n ← (if big then (do
+      let k ← randBelow 8
+      match k with
+      | 0 => pure (65535 - optL - 1) | 1 => pure (65535 - optL) | 2 => pure (65535 - optL + 1) | 3 => pure 65535
+      | 4 => pure 65536 | 5 => pure (65535 - optL - 184) | _ => randRange 65400 65700)
+    else genPayloadLen hdrLen afLen)
   let payload ← randBytes (max n 1)
   -- the optional header is present iff the stream id carries one (stream id 0 = default from the stream type: always one)
   let hasOpt := sid = 0 || hasPESOptionalHeader sid
@@ -151,12 +158,12 @@ def genHistory (len : Nat) (period : Nat) (onlyValid : Bool) : Gen History := do
   ops := ops ++ [.setPCR (pids.headD 0x100)]
   let mut pcr := pids.headD 0x100
   for _ in [0:len] do
-    let k ← randBelow 20
+    let k ← randBelow 21
     if k < 12 then
       if pids.isEmpty then continue
       let pid ← pick pids
       let wantAF ← chance 1 2
-      let d ← genData pid wantAF (if onlyValid then 100 else 176) (← chance 1 60)
+      let d ← genData pid wantAF (if onlyValid then 100 else 176) (← chance 1 25)
       ops := ops ++ [.data d]
     else if k = 12 then ops := ops ++ [.tables]
     else if k = 13 then
@@ -197,6 +204,32 @@ def genHistory (len : Nat) (period : Nat) (onlyValid : Bool) : Gen History := do
         let choice ← randBelow 3
         let p' : Packet := if choice = 0 then p else if choice = 1 then { p with payload := p.payload.take (p.payload.length / 2) } else { p with payload := p.payload ++ extra, header := { p.header with hasPayload := true } }
         ops := ops ++ [.packet p']
+    else if k = 19 && !onlyValid then
+      let c ← randBelow 3
+      if c = 0 then
+        -- a PMT too large for one packet: the emission is rejected, then the streams are removed again
+        let n ← randRange 33 40
+        let extra := (List.range n).map fun i => 0x400 + i
+        ops := ops ++ extra.map (fun pid => MuxOp.add { elementaryPID := pid, streamType := 0x0f }) ++ [.tables]
+        if !pids.isEmpty then
+          let d ← genData (← pick pids) false
+          ops := ops ++ [.data d]
+        ops := ops ++ extra.map (fun pid => MuxOp.remove pid) ++ [.tables]
+      else if c = 1 then
+        -- adaptation fields whose size does not fit a uint8: huge stuffing, 254/255 bytes of private data
+        let p ← genPacket
+        let sl ← pick [100, 200, 254, 255, 256, 300, 511]
+        let afBig : PacketAdaptationField := { stuffingLength := sl, length := 1 + sl }
+        let pl := p.payload.take 10
+        ops := ops ++ [.packet { p with adaptationField := some afBig, header := { p.header with hasAdaptationField := true }, payload := pl }]
+      else
+        if !pids.isEmpty then
+          let pid ← pick pids
+          let d ← genData pid false
+          let n ← pick [254, 255]
+          let priv ← randBytes n
+          let af : PacketAdaptationField := { hasTransportPrivateData := true, transportPrivateData := priv, transportPrivateDataLength := n }
+          ops := ops ++ [.data { d with adaptationField := some af }]
     else
       if !onlyValid && !pids.isEmpty then
         -- an adaptation field that leaves no room for the PES header / does not fit at all
